@@ -151,12 +151,18 @@ pub fn orswot_op_proj(o: &O, d: &Dims) -> Value {
 pub fn orswot_gen(s: &S, actor: u8, cmd: &Value) -> O {
     match cmd["c"].as_str().unwrap() {
         "add" => {
+            // every read entry point carries the set clock as add context (layer A: ExpClock); the harness
+            // rotates through them so that each derive_add_ctx source is exercised
             let m = cmd["m"].as_u64().unwrap() as u8;
-            let ctx = s.read_ctx().derive_add_ctx(actor);
+            let ctx = match (m as usize + actor as usize + s.clock().get(&actor) as usize) % 3 {
+                0 => s.read_ctx().derive_add_ctx(actor),
+                1 => s.contains(&m).derive_add_ctx(actor),
+                _ => s.read().derive_add_ctx(actor),
+            };
             s.add(m, ctx)
         }
         "addall" => {
-            let ctx = s.read_ctx().derive_add_ctx(actor);
+            let ctx = if actor % 2 == 0 { s.read().derive_add_ctx(actor) } else { s.read_ctx().derive_add_ctx(actor) };
             s.add_all(members_of(cmd), ctx)
         }
         "rm" => {
